@@ -35,6 +35,8 @@
 #include <fcppt/tuple/object_impl.hpp>
 #include <fcppt/variant/object_impl.hpp>
 
+#include <map>
+
 namespace
 {
 FCPPT_RECORD_MAKE_LABEL(la);
@@ -143,12 +145,13 @@ template <> struct nest<x_unique>
   static x_unique make(int b) { return fcppt::make_unique_ptr<tracked>(b); }
 };
 
-// a vector of n elements whose capacity is exactly n: the next insertion reallocates
+// a vector of at least n elements that is filled up to its capacity, so that the next insertion reallocates (reserve(n)
+// may give more than n: the vector is then simply filled further; no assumption about the growth policy)
 template <class X> std::vector<X> full_vector(int const n, int const base)
 {
   std::vector<X> v;
   v.reserve(static_cast<std::size_t>(n));
-  for (int i = 0; i < n; ++i)
+  for (int i = 0; i < n || v.size() < v.capacity(); ++i)
     v.push_back(nest<X>::make(base + 10 * i));
   return v;
 }
@@ -170,7 +173,6 @@ template <class X> void nested_all()
                        ", vector:rvalue-owned, element:rvalue",
                true, [&](ctx &x) {
                  std::vector<X> v = full_vector<X>(n, 100);
-                 VRT_CHECK(v.capacity() == static_cast<std::size_t>(n), "harness:capacity", "capacity %zu != %d", v.capacity(), n);
                  X e = nest<X>::make(900);
                  std::vector<int> const want = ids_of(v) + ids_of(e);
                  x.inout("vector", v);
@@ -232,14 +234,17 @@ template <class X> void nested_all()
       std::vector<int> src;
       for (int i = 0; i < n; ++i)
         src.push_back(i);
-      std::vector<int> want;
+      std::map<int, std::vector<int>> made; // by source element: the result order follows the elements, not the calls
       x.arm();
-      std::vector<X> r = fcppt::algorithm::map_optional<std::vector<X>>(src, [&want](int const i) {
+      std::vector<X> r = fcppt::algorithm::map_optional<std::vector<X>>(src, [&made](int const i) {
         X v = nest<X>::make(100 + 10 * i);
-        want = want + ids_of(v);
+        made[i] = ids_of(v);
         return fcppt::optional::object<X>{std::move(v)};
       });
       x.disarm();
+      std::vector<int> want;
+      for (int i : src)
+        want = want + made[i];
       x.result_is(r, want);
     });
     run_case(op, descr({{"move_range", cat::rv}}, "algorithm::map_optional<vector<X>> producing " + std::to_string(n) + " X from a move range of X"), true,
@@ -258,16 +263,19 @@ template <class X> void nested_all()
       std::vector<int> src;
       for (int i = 0; i < n; ++i)
         src.push_back(i);
-      std::vector<int> want;
+      std::map<int, std::vector<int>> made;
       x.arm();
-      std::vector<X> r = fcppt::algorithm::map_concat<std::vector<X>>(src, [&want](int const i) {
+      std::vector<X> r = fcppt::algorithm::map_concat<std::vector<X>>(src, [&made](int const i) {
         std::vector<X> inner;
         inner.reserve(1);
         inner.push_back(nest<X>::make(100 + 10 * i));
-        want = want + ids_of(inner);
+        made[i] = ids_of(inner);
         return inner;
       });
       x.disarm();
+      std::vector<int> want;
+      for (int i : src)
+        want = want + made[i];
       x.result_is(r, want);
     });
     run_case(op, descr({{"source", cat::rv}}, "optional::cat<vector<X>> of " + std::to_string(n) + " present optionals"), true, [&](ctx &x) {
